@@ -242,4 +242,13 @@ theorem packGroups_flatten_extracted (limit : Nat) (groups : List (List Nat)) :
       = groups.flatten := by
   simpa using (packGroups_flatten limit _ _ groups []).1
 
+/-- **reshape_merge_ones_den**: the other plan `reshape_rechunk` uses for a merge ("all the lower axes are completely
+    chunked: we're simply moving around blocks"): every row its own chunk, columns chunked `cc` arbitrarily; the
+    output chunks are `cc` repeated once per row and block `(i, j)` lands at position `i*len(cc) + j`. -/
+theorem reshape_merge_ones_den {α} (cc : List Nat) (rows : List (List α)) (h : ∀ r ∈ rows, r.length = sum cc) :
+    reshapeMergeOnesBlocks cc rows = splitBy ((List.replicate rows.length cc).flatten) rows.flatten :=
+  reshape_merge_ones_aux cc rows h
+
+example : reshapeMergeOnesBlocks [2, 1] [[1, 2, 3], [4, 5, 6]] = [[1, 2], [3], [4, 5], [6]] := by rfl
+
 end Dask.C24
